@@ -5,7 +5,7 @@ import re
 import wire
 from curtsies.formatstring import FmtStr, fmtstr
 from curtsies import escseqparse
-from props.common import reply_fmt, canon_cells
+from props.common import reply_fmt
 
 PROP = "C17"
 MODULES = ["Curtsies.Properties.C17"]
@@ -177,13 +177,14 @@ def oracle(s):
         text = f.s
     except Exception as e:  # noqa: BLE001
         return "raises: reading the result raised %s" % type(e).__name__
-    if gchunks != chunks:
+    # characters and effective formatting per character; how the result is cut into runs is not part of the statement
+    if wire.eff_cells_of_chunks(gchunks) != wire.eff_cells_of_chunks(chunks) or g.s != text:
         return "fmtstr(s) differs from FmtStr.from_str(s)"
     if text != "".join(t for t, _ in chunks):
         return ".s is not the concatenation of the runs"
     marks = esc_marks(s)
     if not any(marks):
-        if chunks != [(s, {})]:
+        if text != s or any(a for _, a in wire.eff_cells_of_chunks(chunks)):
             return "plain: text without escape sequences did not come back verbatim and unformatted: %r" % (chunks,)
     if not is_subseq(text, s):
         return "subsequence: result text %r is not s with characters removed" % text
@@ -309,6 +310,14 @@ def sgr_supported_only(s):
     return True
 
 
+def canon_eff_cells(reply):
+    """'ok <fmt>' -> per-character (character, EFFECTIVE formatting): an explicit False and an absent key display the
+    same and the properties speak about what is displayed; errors and other replies unchanged"""
+    if reply.startswith("ok "):
+        return ("effcells", tuple(wire.eff_cells_of_chunks(wire.dec_fmt(reply[3:]))))
+    return reply
+
+
 def canon_text(reply):
     """'ok <fmt>' -> ('ok', text); a raised exception stays (the kind is irrelevant: the property says 'never')"""
     if reply.startswith("ok "):
@@ -330,7 +339,7 @@ def tie_fromstr(ctx, name, cases, line_fn, impl_fn):
             memo[k] = impl_fn(c)
         return memo[k]
     if sup:
-        ctx.tie(name, sup, line_fn, impl, canon_cells, canon_cells)
+        ctx.tie(name, sup, line_fn, impl, canon_eff_cells, canon_eff_cells)
     if rest:
         ctx.tie(name + "-text(unsupported-sgr)", rest, line_fn, impl, canon_text, canon_text)
     ctx.tie(name + "-runs", cases, line_fn, impl, level="representation")
@@ -480,11 +489,12 @@ def d28_text(s):
 
 def judge(ctx, viols):
     """viols: [(string, what, reply of the real code in wire form)].  A failing case is attributed to D28 only if it has the
-    D28 shape AND what the real code returned - runs, text and formatting - EQUALS what the recorded defect does, i.e. the
+    D28 shape AND what the real code returned - every character with its effective formatting - EQUALS what the recorded defect does, i.e. the
     reply of the Lean model (an independent parser, not the tree under test) for that string.  Anything else on such an
     input is an unlisted violation.  One allowance: when the string also contains an SGR code outside the supported set,
     whether from_str parses or falls back to remove_ansi (and the formatting) is outside the properties; then the TEXT may
-    also be the one D28 leaves on the parse path (`d28_text`, computed by the harness's own scanner)."""
+    also be the one D28 leaves on the parse path (`d28_text`, computed by the harness's own scanner) - but only if the
+    recorded behaviour itself fails the numeric clause on that string."""
     cand = [v for v in viols if d28_shaped(v[0], v[1])]
     model = {}
     if cand:
@@ -494,9 +504,12 @@ def judge(ctx, viols):
         model = {v[0]: r for v, r in zip(cand, reps)}
     for case, what, reply in viols:
         m = model.get(case)
-        if m is not None and m.startswith("ok ") and m == reply:
+        if m is not None and m.startswith("ok ") and canon_eff_cells(m) == canon_eff_cells(reply):
             ctx.violation(what, case, "D28")
-        elif m is not None and not sgr_supported_only(case) and canon_text(reply) == ("ok", d28_text(case)):
+        elif (m is not None and not sgr_supported_only(case) and canon_text(reply) == ("ok", d28_text(case))
+              and canon_text(m) != ("ok", numeric_strip(case))):
+            # (never when the recorded behaviour - the model - satisfies the numeric clause on this string and the real
+            #  code does not: that is a new failure, whatever its shape)
             ctx.violation(what, case, "D28")
         elif m is not None:
             ctx.violation("not-D28: " + what + " [D28-shaped input, but the result is not what D28 explains: got %s, D28 gives %s]" % (reply, m), case, None)
